@@ -176,7 +176,8 @@ func vfC19Run(cs vfC19Case, res *vfC19Res) string {
 					return
 				case <-time.After(50 * time.Millisecond):
 				}
-				srvOut([]byte("zmodem-data-from-server........"))
+				// zmodem data is full of ZDLE (0x18) escapes, and a read can end anywhere - also right after one
+				srvOut([]byte([]string{"zmodem-data-from-server........", "zmodem-data\x18", "\x18", "data\x18h\x18i\x18", "....\x18\x69....\x18", "\x18\x18"}[i%6]))
 			}
 		}
 	}()
